@@ -374,8 +374,17 @@ func modelHost(z *Zone, h HostSpec, network string) *hostModel {
 		}
 	}
 	m.partial = withECH > 0 && without > 0
-	for _, ip := range append(z.addrs(origin), z.addrs(host)...) {
+	for _, ip := range z.addrs(origin) {
 		m.own[canonIP(ip)] = noTarget
+	}
+	if origin != host {
+		// the addresses of a name that owns an AliasMode record are produced by no
+		// HTTPS record: if anything is dialled there, then without a list from DNS
+		for _, ip := range z.addrs(host) {
+			if _, dup := m.own[canonIP(ip)]; !dup {
+				m.own[canonIP(ip)] = nil
+			}
+		}
 	}
 	for i := range recs {
 		r := &recs[i]
@@ -1073,7 +1082,11 @@ func judgeEch(res *core.Result, prop string, p *EchPlan, es *echState, caller, b
 	if p.ViaTransport && p.OwnDialer && len(calls) == 0 && !refusalPossible && !anyResolverFault && len(p.PublicName) <= 255 && retErr != nil {
 		reachable := false
 		for _, m := range models {
-			reachable = reachable || len(m.own) > 0
+			for _, owner := range m.own {
+				// (the own addresses of a name that owns an AliasMode record are not
+				// targets; only count what a record or the name itself provides)
+				reachable = reachable || owner != nil || !m.aliased
+			}
 		}
 		if reachable {
 			res.Fail(prop, "own-dialer", "the request fails without one call of the DialFunc of the Dialer installed in Transport.Dialer (whatever dialled, it was not bound by that Dialer's RequireECH / PublicName)", "hosts %v: error %s", p.Hosts, errText(retErr))
